@@ -105,12 +105,17 @@ def valid_upgrade(rng, slot, spec):
         options.append('attachment')
     if [n for n in ('r', 's', 'w') if n not in names]:
         options.append('property')
+    if not s.get('parent') and 'p' in names:
+        # the event type becomes a child of another event type
+        options += ['parent', 'parent']
     what = rng.choice(options)
     if what in ('story', 'summary'):
         s['free'][what] = s['free'][what] + ' (rev %d)' % s['version']
     elif what == 'relation':
         s['relations'].append(G.base_relation('p', 'q') if not s['relations'] else G.base_relation('q', 'p'))
         G.fix_relations(s)
+    elif what == 'parent':
+        s['parent'] = G.base_parent()
     elif what == 'attachment':
         have = [a['name'] for a in s['attachments']]
         s['attachments'].append(G.base_attachment([n for n in ('att', 'att2') if n not in have][0]))
